@@ -122,7 +122,7 @@ lemma("redo_after_undo_is_identity",
 
 # ---- bounded stand-in (B3): real histories on a real temp project -----------------------------------
 from bounded import c11_histories
-bounded_check(name="c11-histories", fn=c11_histories.run_seq, domain=c11_histories.domain, exhaustive=True,
+bounded_check(name="c11-histories", props=["C11"], fn=c11_histories.run_seq, domain=c11_histories.domain, exhaustive=True,
               label="B3: every applicable sequence of <= 3 (thorough: <= 4) distinct changes out of 11 (edits, file move, folder move, creations, nested "
                     "edits); plain undo/redo against recorded snapshots; selective undo at every index x drop in {False, True} against the reference "
                     "dependency closure and a replay of the remaining changes on a fresh project")
